@@ -9,6 +9,7 @@ mod r#gen;
 mod lockstep;
 mod player;
 mod props;
+mod refint;
 mod rng;
 mod storyinfo;
 mod tools;
@@ -30,6 +31,7 @@ fn main() {
         "C04" => props::c04::run(&cfg),
         "C05" => props::c05::run(&cfg),
         "C06" => props::c06::run(&cfg),
+        "C07" => props::c07::run(&cfg),
         "C08" => props::c08::run(&cfg),
         "C09" => props::c09::run(&cfg),
         "C10" => props::c10::run(&cfg),
